@@ -53,7 +53,7 @@ class C20(Check):
     extracted = ['coq/Args/model.mli', 'coq/Args/model.ml', 'ocaml/zconv.ml', 'ocaml/args_driver.ml']
     harness_sources = ['harness/args.cpp', 'harness/args_kernel.cpp']
     per_case_timeout = 20
-    level_text = ('48 Coq theorems (no axioms) about an executable model of Process.cpp (POSIX paths) that mirrors the code decision '
+    level_text = ('58 Coq theorems (no axioms) about an executable model of Process.cpp (POSIX paths) that mirrors the code decision '
                   'by decision with every forward string access going through a bounds-checked peek/advance and every backward one '
                   '(argument.attach(arg - 2, ..), attach(argName - 2, ..), attach(arg - 1, 1)) through attach_back, which answers out-of-'
                   'bounds unless the pointer stays at or behind the start of the string and the bytes handed out end at or before the '
@@ -67,10 +67,16 @@ class C20(Check):
                   'backslash, and for the words that do the result is characterised exactly (the backslash escapes the closing quote: the '
                   'word ends in a quote character and takes in the rest of the line read in quoted mode; as last word only the last '
                   'character changes; followed by words without quote/space characters everything merges into one word); with the quoting '
-                  'that writes trailing backslashes behind the closing quote, split(join words) = words for EVERY word list. (C) the '
-                  'argv/env arrays handed to execvpe by each start/open overload are exactly executable + argument vector + environment '
+                  'that writes trailing backslashes behind the closing quote, split(join words) = words for EVERY word list; the '
+                  'class of command lines the property quantifies over is a decidable predicate of the reference (ArgsSpec.in_class: single '
+                  'unquoted spaces between words, none leading or trailing, every quote closed): on it the model yields exactly the '
+                  'words the oracle names, that quoting function only writes lines of the class, so every word list is the answer '
+                  'to some line of the class. (C) the '
+                  'argv/env arrays handed to execvpe by EACH of the five entry points - start(cmd), start(program, argc, argv), '
+                  'open(cmd), open(executable, argc, argv), open(executable, List), one model function per entry point because the code '
+                  'carries the preparation once per entry point - are exactly executable + argument vector + environment '
                   'given, where element 0 of a vector without its own terminating null pointer is the program-name slot and is filled '
-                  'with the executable. (D) getEnvironmentVariable / setEnvironmentVariable / getEnvironmentVariables over ::environ '
+                  'with the executable; for a command line of the class the program is the first WORD. (D) getEnvironmentVariable / setEnvironmentVariable / getEnvironmentVariables over ::environ '
                   '(getenv/setenv/unsetenv transcribed from POSIX/glibc as functions on the string array) refine a finite map kept in '
                   'key order on every environment without duplicate names, and every set keeps it duplicate-free: get is lookup, set is '
                   'update, the empty value removes, enumeration is the sorted binding list that agrees with get on every name; names '
@@ -80,7 +86,8 @@ class C20(Check):
                   'with pairwise different descriptors - no close() ever hits a descriptor the object does not hold (no double close, '
                   'the descriptor-0 convention included); opened = closed + held for every descriptor (unconditionally, any answers); '
                   'each step keeps the invariant and answers like the life-cycle reference (idle / running with a set of open streams); '
-                  'join returns WEXITSTATUS of the status the kernel delivers; join/kill/read(streams) on an object without a process '
+                  'join returns WEXITSTATUS of the status the kernel delivers - for a child that exited with code c exactly c '
+                  '(the statement the oracle compares; a status with WIFSIGNALED carries no exit code and the oracle leaves the number open); join/kill/read(streams) on an object without a process '
                   'and open/start on a running one are refused without a system call or any change (seen by the caller - ProcSpec.seen, '
                   'the observation the oracle compares - as a failed call, false / -1, that changes nothing); a failed waitpid changes nothing and '
                   'can be retried; the object holds exactly one descriptor per open stream and none when idle, and after the destructor '
@@ -89,13 +96,19 @@ class C20(Check):
                   'unconditional statement is refuted by witness. The model is tied to the code by running the extracted model, the '
                   'extracted reference and the ASan/UBSan build of the working tree on the same inputs (results and the cursor fields '
                   'idx/pos/inOpt/skipOpt; the raw ::environ array; the object fields, the system calls the Process code makes - '
-                  'recorded by interposing close/pipe/fcntl/waitpid/kill/read/write/select and a macro on vfork - and the number of '
+                  'recorded by interposing close/pipe/fcntl/waitpid/kill/read/write/select/poll and a macro on vfork - and the number of '
                   'open descriptors of the harness process counted in /proc/self/fd after every call), exhaustively over small scopes.')
     level_note = ('partial: exec itself, pipes, end-of-file on redirected output, stdin bytes arriving intact and the environment as seen by '
                   'the child are OS behaviour - validated by correspondence only (a helper child echoes argv/environ, copies stdin to '
                   'stdout/stderr and exits with a scripted code or stays until signalled; 8 redirection combinations x 4 launch forms, '
-                  'payloads 0..64 KiB+1 (1 MiB in thorough) around the pipe capacity, exit codes 0..255; launch profiles again / fd0 / '
-                  'noexec; every launch under its own watchdog; a child started with an empty environment map after a sequence of '
+                  'payloads 0..64 KiB+1 (1 MiB in thorough) around the pipe capacity, exit codes 0..255; every entry point with 0 / 1 / 2 / '
+                  '16 / 17 / 40 arguments, an empty argument first / in the middle / last / everywhere, environments of 0 / 1 / 16 / 17 / 40 '
+                  'entries and program names that only the quoting rules can spell ("./ac", ./a"c", "./sp dir/ac", "./a\\"c" ..); launch '
+                  'profiles again / fd0 / noexec / manyfds (1100 descriptors open in the parent: pipe ends above FD_SETSIZE) / vpause (the '
+                  'interposed select/poll answers "timed out" - sets cleared, timeval counted down, revents 0 - for 5 s or 2000 s of VIRTUAL '
+                  'time before the kernel is asked, so a reader with a shorter time-out goes through its time-out path without real '
+                  'waiting; a reader that then keeps asking with a zero time-out is reported as `spin`) / pause (thorough tier: one REAL '
+                  'silence of 1.2 s between the child\'s writes); every launch under its own watchdog; a child started with an empty environment map after a sequence of '
                   'setEnvironmentVariable calls echoes exactly the model\'s ::environ). What pipe/F_DUPFD/vfork/waitpid/read/write/select '
                   'return is an INPUT of the Process-object model (the harness injects pipe, F_DUPFD, vfork and waitpid failures and '
                   'closes the caller\'s descriptor 0; the driver supplies the same answers to the model); libc getenv/setenv/unsetenv '
@@ -121,21 +134,36 @@ class C20(Check):
                   '(EINVAL where the object itself declines, in the code as it is) is printed in a model-only section (errno=.. of the '
                   'Process-object lines, `| errno=..` of an `again` launch): a tree that reports misuse with other errno values ends '
                   'in no-failing-input-found (correspondence), not in a failing input. '
-                  'Also noted, not driven: read(buffer, length, streams) re-enters select() after a 1000 s time-out with the descriptor '
-                  'set and the time-out both cleared by the kernel (would spin). A child ended by a signal is reported by join as '
-                  'true with exit code 0 (WEXITSTATUS of a signal status). Theorems are about the model; the tie to the code is '
+                  'REPAIRED in round 5 (fixes/C20/12, committed as ef92fcb): read(buffer, length, streams) kept its descriptors in an '
+                  'fd_set on the stack - FD_SET/FD_ISSET ran over it once the parent had >= 1024 descriptors open (profile manyfds) - and '
+                  're-entered select() after its 1000 s time-out with the set and the timeval the kernel had just cleared (profile '
+                  'vpause:2000000: spun for ever); it now waits with poll(). The recorder logs select() and poll() alike as `select`. '
+                  'A child ended by a signal is reported by join as true with exit code 0 in the code as it is (WEXITSTATUS of a signal '
+                  'status): a statement about the Model; the property says "returns its exit code" and such a child has none, so the '
+                  'reference prints `1:?` there (ProcSpec.join_code_specified) and a tree that reports 128+signal differs only in the '
+                  'correspondence. Theorems are about the model; the tie to the code is '
                   'differential. The contents of the bytes behind the cursor that attach_back hands out are rebuilt from the bytes read '
                   'on the way (only the bounds of the backward access are an obligation). Contract taken from the code, not from the '
                   'header (Process.hpp says only "argv: Arguments to the process"): start/open(executable, argc, argv) follow the '
                   'main()/exec convention - argv[0] is the slot of the program name: it is overwritten with `executable`, the library\'s '
                   'own command-line overloads pass the first word there, and a vector that ends in a null pointer counted in argc is '
-                  'handed over unchanged; open(executable, List) inherits this, so the first list element is not seen by the child. '
+                  'handed over unchanged; open(executable, List) inherits this, so the first list element is not seen by the child '
+                  '(the Windows branch of the same functions builds its command line from argv[1..] too: the slot convention is the '
+                  'library\'s on both platforms; the text "exactly the argument vector it was given" is read with that convention - a '
+                  'choice of the builder, disclosed here and in assumptions). The start() and open() entry points are separate model '
+                  'functions with the same text, as in the code. Shrinking of a Process-object case only passes through cases the '
+                  'generator can emit (C20.pobj_admits), so a printed replay is never a case whose outcome is undetermined. A case with '
+                  'more op lines than the harness holds (16 table rows, 1024 strings, 256 environment entries) is answered `?too-many`, '
+                  'never cut. The manyfds launches need a hard RLIMIT_NOFILE >= 2048 (otherwise they are not generated). '
                   'Hypotheses of the theorems: argument strings are bytes 1..255 and option names contain no NUL (what a C string is); '
                   'the environment has no duplicate names (kept by every set; an environment handed over by exec with duplicates is '
                   'outside); getenv with a name containing = or an empty name is outside (the generators do not ask for it); kernel '
                   'answers of one open() are pairwise different descriptors and process ids are not 0. The word-splitting reference '
-                  'follows the code on inputs outside the property\'s class "words separated by single spaces": a leading or doubled '
-                  'space yields an empty word, an unterminated quote is accepted. The model mirrors the code after the repairs '
+                  'split_ref follows the code also outside the property\'s class "words separated by single spaces" (a leading or doubled '
+                  'space yields an empty word, an unterminated quote is accepted) - splitter_refines_reference is about every line - but '
+                  'Process.hpp documents only "the first word .. further words": the ORACLE (ArgsSpec.split_seen) names the words on '
+                  'lines of the class only and prints `words ??*` / `argv=?` for a line with a leading, trailing or doubled unquoted '
+                  'space or an open quote; what the code does there is compared with the model only (no-failing-input-found). The model mirrors the code after the repairs '
                   'fixes/C20/01..07. Map iteration order and Map::insert overwriting are taken as given (C01). splitCommandLine is a '
                   'file-local function: the harness compiles Process.cpp into its own translation unit to call it directly (which is '
                   'also what lets a macro stand in front of vfork), and also drives it through open/start(commandLine). The direct call '
@@ -157,7 +185,9 @@ class C20(Check):
             'up to length 6 (quick) / 8 (thorough) plus random longer ones; round trips exhaustive for single words up to length 4 / 5 '
             'and pairs up to length 2; launches cover the 8 redirection combinations x {cmd, argv, argv0, list} forms x payloads '
             'around 4 KiB / 64 KiB +-1 / 1 MiB x exit codes 0..255 (sampled in quick) x environments and the profiles again / fd0 / '
-            'noexec; environment: every (initial environment, name, value) of fixed pools (names with NUL, =, empty, high bytes; '
+            'noexec / manyfds / vpause / pause, plus per entry point (start cmd/argv/argv0, open cmd/argv/argv0/list) 0/1/2/16/17/40 '
+            'arguments x environments of 0/1/16/17/40 entries x empty arguments at every kind of position x quoted program names; '
+            'one stream of long option names / values / vectors / tables (40 / 60 / 40 / 16); environment: every (initial environment, name, value) of fixed pools (names with NUL, =, empty, high bytes; '
             'values empty, with NUL, with =) plus random sequences, every third ending in a child that inherits; Process object: '
             'every sequence of operations whose outcome is determined, to depth 1 from a new object and depth 2 after an open '
             '(thorough: 2 and 3) with all 8 stream sets, injected pipe/F_DUPFD/vfork/waitpid failures and the caller\'s descriptor '
@@ -173,6 +203,10 @@ class C20(Check):
                    'Map<String,String> enumerates in key order and insert overwrites (property C01); getenv/setenv/unsetenv behave as '
                    'POSIX/glibc 2.36 describe (transcribed in coq/Args/ProcModel.v, compared with libc on every environment case); '
                    '::environ has no duplicate names',
+                   'command lines: the oracle names the words (and the argv of a launched command line) only for lines of the '
+                   'property\'s class, ArgsSpec.in_class - words separated by single unquoted spaces, no leading or trailing space, every '
+                   'quote closed; join(): the exit code is compared only when the child exited (WIFEXITED), a child ended by a signal '
+                   'has none',
                    'the kernel hands out descriptors that are not open (pairwise different within one open()), pids are not 0; what '
                    'vfork/execvpe/pipe/waitpid/select do is an input of the model or validated by correspondence, not modelled']
 
@@ -343,6 +377,38 @@ class C20(Check):
         for _ in range(rng.randrange(1, 7)):
             tbl.append((rng.choice([97, 98, 99, 120, 45, 61, 300, 0, 200, -56]), rng.choice(names), rng.randrange(4)))
         return tbl
+
+    def long_case(self, rng):
+        """round 5: the other end of the scope - names of 1..40 characters, values of 20..60, vectors of 20..40 strings, tables of
+        up to 16 rows (any length-gated slip in read() is invisible on strings of <= 6 characters)"""
+        def word(lo, hi, alpha='abcx'):
+            return ''.join(rng.choice(alpha) for _ in range(rng.randrange(lo, hi + 1)))
+        tbl, names = [], []
+        for _ in range(rng.randrange(1, 17)):
+            r = rng.random()
+            name = None if r < 0.15 else word(1, 40) if r < 0.7 else word(1, 12, 'abcx-=') if r < 0.8 else rng.choice(names or ['a'])
+            if 0.8 <= r < 0.92 and names:               # a sibling: same length, one character (anywhere, also far behind) differs
+                n = rng.choice(names)
+                k = rng.randrange(len(n))
+                name = n[:k] + rng.choice('abcx'.replace(n[k], '') or 'y') + n[k + 1:]
+            if name is not None:
+                names.append(name)
+            tbl.append((rng.choice([97, 98, 99, 120, 300, 301, 0, 200]), name, rng.randrange(4)))
+        vec = []
+        for _ in range(rng.randrange(20, 41)):
+            r = rng.random()
+            value = word(20, 60, ALPHA + 'abcx') if rng.random() < 0.8 else word(20, 60, 'ab') + '\xc8\xff'
+            if r < 0.35 and names:
+                n = rng.choice(names)
+                n = n if rng.random() < 0.8 else (n[:-1] if rng.random() < 0.5 else n + 'x')      # exact, a prefix, one longer
+                vec.append('--' + n + rng.choice(['', '', '=' + value, '=']))
+            elif r < 0.55:
+                vec.append('-' + word(1, 30, 'abcx') + rng.choice(['', value]))
+            elif r < 0.6:
+                vec.append(rng.choice(['--', '-', '']))
+            else:
+                vec.append(value)
+        return parse_case(tbl, vec)
 
     def launch_cases(self, rng, thorough):
         cases = []
@@ -701,6 +767,8 @@ class C20(Check):
         for _ in range(6000 if thorough else 1200):
             cases.append(parse_case(self.rand_table(rng), self.rand_vec(rng, rng.randrange(0, 7))))
         out.append(Stream('args_rand', cases, note='random tables (duplicate/negative/zero characters, empty and missing names, all flag combinations)'))
+        out.append(Stream('args_long', [self.long_case(rng) for _ in range(1500 if thorough else 250)],
+                          note='long strings: option names of 1..40 characters, values of 20..60, vectors of 20..40 strings, tables of up to 16 rows'))
         out.append(Stream('args_argc0', [table_ops(t) + ['s ' + hx(x) for x in v] + ['parse0'] for t in (FIXED_TABLE, FIXED_TABLE2)
                                          for v in ([], ['-a'], ['--', 'x'])],
                           note='Arguments constructed with argc == 0: read() is false at once and stays false'))
